@@ -315,7 +315,7 @@ def job_gate(n, seed):
 
 def jobs(tier, seed):
     k = 1 if tier == "quick" else 50
-    length = 4 if tier == "quick" else 6
+    length = 4 if tier == "quick" else 5
     js = []
     for table in ("A1", "A2"):
         for s in range(4 if tier == "quick" else 8):
